@@ -1,6 +1,7 @@
 package families
 
 import (
+	corev1 "k8s.io/api/core/v1"
 	"fmt"
 
 	"verif/mc/clustermc"
@@ -130,10 +131,56 @@ func shareGangFaultScenarios(tier string) []clustermc.Scenario {
 	return out
 }
 
+// pinnedGangShareScenarios: a fractional gang whose members are pinned to DIFFERENT nodes, one of
+// which only has terminating capacity: the member that was allocated on an idle GPU is converted to a
+// nomination together with the rest of the gang, and the device group it opened must not be treated as
+// a real device by the pods that follow (a whole-GPU pod and a fractional pod, in every creation order).
+func pinnedGangShareScenarios(tier string) []clustermc.Scenario {
+	pin := func(pool string) func(p *corev1.Pod) {
+		return func(p *corev1.Pod) { p.Spec.NodeSelector = map[string]string{"pool": pool} }
+	}
+	type item struct {
+		tag string
+		wl  world.WL
+	}
+	gang := item{"gang2-f5(x,y)", world.WL{Queue: "qa", PC: "p50", MinMember: 2, Pods: []world.PodSpec{{Shape: shF5, Mutate: pin("x")}, {Shape: shF5, Mutate: pin("y")}}}}
+	whole := item{"pend-g1(x)", world.WL{Queue: "qa", PC: "p50", Pods: []world.PodSpec{{Shape: shG1, Mutate: pin("x")}}}}
+	frac := item{"pend-f5(x)", world.WL{Queue: "qa", PC: "p50", Pods: []world.PodSpec{{Shape: shF5, Mutate: pin("x")}}}}
+	frac3 := item{"pend-f3(x)", world.WL{Queue: "qa", PC: "p50", Pods: []world.PodSpec{{Shape: shF3, Mutate: pin("x")}}}}
+	orders := [][]item{{gang, whole, frac}, {gang, frac, whole}, {whole, gang, frac}, {frac, gang, whole}, {gang, frac}, {gang, whole}, {gang, frac, frac3}, {gang, frac3, whole}}
+	var out []clustermc.Scenario
+	for _, n1gpus := range []int{1, 2} {
+		for _, n1term := range []bool{false, true} {
+			for oi, ord := range orders {
+				b := world.NewBuilder()
+				b.Node(world.NodeOpt{Name: "n1", CPU: "8", Mem: "8Gi", Pods: 110, GPUs: n1gpus, GPUMemMiB: 40000, Labels: map[string]string{"pool": "x"}})
+				b.Node(world.NodeOpt{Name: "n2", CPU: "8", Mem: "8Gi", Pods: 110, GPUs: 1, GPUMemMiB: 40000, Labels: map[string]string{"pool": "y"}})
+				b.GQueue("dept", "", -1, -1, 1).GQueue("qa", "dept", 8, -1, 1)
+				b.Workload(world.WL{Name: "t2", Queue: "qa", PC: "p50", Pods: []world.PodSpec{{Shape: shG1, State: world.StTerminating, Node: "n2"}}})
+				if n1term {
+					if n1gpus < 2 {
+						continue
+					}
+					b.Workload(world.WL{Name: "t1", Queue: "qa", PC: "p50", Pods: []world.PodSpec{{Shape: shG1, State: world.StTerminating, Node: "n1"}}})
+				}
+				tags := ""
+				for i, it := range ord {
+					wl := it.wl
+					wl.Name = fmt.Sprintf("w%d", i)
+					b.Workload(wl)
+					tags += it.tag + ","
+				}
+				out = append(out, clustermc.Scenario{Name: fmt.Sprintf("pinned-gang:n1=%dgpu,term=%v:order%d:%s", n1gpus, n1term, oi, tags), World: b.Done(), Configs: []schedrun.Config{{}, {Placement: "spread"}}})
+			}
+		}
+	}
+	return out
+}
+
 func C02() *clustermc.Family {
 	return &clustermc.Family{
 		Property:  "C02",
-		Scenarios: func(tier string) []clustermc.Scenario { return append(shareScenarios(tier), shareGangFaultScenarios(tier)...) },
+		Scenarios: func(tier string) []clustermc.Scenario { return append(append(shareScenarios(tier), shareGangFaultScenarios(tier)...), pinnedGangShareScenarios(tier)...) },
 		Depth: func(tier string) int {
 			if tier == "thorough" {
 				return 4
